@@ -2,7 +2,7 @@
     (internal/server/message/fetch.go), statement by statement: every data
     item is recognised by SUBSTRING tests on the upper-cased item text, in
     a fixed order of handlers; each handler contributes an [out] to the
-    two-accumulator assembly of Model/Respond.v.
+    response parts of Model/Respond.v.
 
     Inputs that come from the store / from Go's MIME packages are fields of
     [fenv] (the reconstructed message, the stored flag string, the
@@ -193,7 +193,7 @@ Definition header_fields (items iu : str) (msg : str) : option out :=
       let hl := flat_map (fun h => match assoc h m with Some v => [v] | None => [] end) req in
       let hs := join hl crlf in
       let hs' := (match hs with [] => [] | _ => hs ++ crlf end) ++ crlf in
-      Some (LitOver (S_ "BODY[HEADER.FIELDS (" ++ join req [SP] ++ S_ ")]") hs')
+      Some (Lit (S_ "BODY[HEADER.FIELDS (" ++ join req [SP] ++ S_ ")]") hs')
     end
   end.
 
@@ -282,16 +282,12 @@ Definition classify_fetch (items : str) (e : fenv) : option finding :=
   match fetch_plan items e with
   | None => None
   | Some plan =>
-      match classify_plan plan with
-      | Some f => Some f
-      | None =>
-          if contains (to_upper items) (S_ "FLAGS") then
-            match classify_flags (e_flags e) with
-            | Some f => Some f
-            | None => if contains (to_upper items) (S_ "ENVELOPE") then classify_headers (e_msg e) else None
-            end
-          else if contains (to_upper items) (S_ "ENVELOPE") then classify_headers (e_msg e) else None
-      end
+      if contains (to_upper items) (S_ "FLAGS") then
+        match classify_flags (e_flags e) with
+        | Some f => Some f
+        | None => if contains (to_upper items) (S_ "ENVELOPE") then classify_headers (e_msg e) else None
+        end
+      else if contains (to_upper items) (S_ "ENVELOPE") then classify_headers (e_msg e) else None
   end.
 
 (** ---- requests as a client writes them (RFC 3501 fetch-att) ---- *)
